@@ -10,7 +10,7 @@ CONSTANTS Fams,            \* subset of {"reshape","flatten","squeeze","unsqueez
 VARIABLES st
 
 InShapes == ShapesOf(0..MaxRank, 1..MaxExt) \cup (IF Rank5 THEN ShapesOf({5}, 1..2) ELSE {})
-TargetVals == {-1, 0, 1, 2, 3, 4, 6}
+TargetVals == {-2, -1, 0, 1, 2, 3, 4, 6}
 Targets == UNION {[1..n -> TargetVals] : n \in 0..ReshapeLen}
 I64(seq) == T("i64", <<Len(seq)>>, seq)
 
